@@ -637,7 +637,14 @@ func c09QuestionMatch(c *Ctx) {
 			for _, cf := range c.P.FuncsIn(rel) {
 				if cf.Obj == cal {
 					s := core.FullStr(cf.Body)
-					return strings.Contains(s, ".Question") && strings.Contains(s, "Qtype") && strings.Contains(s, ".Name")
+					literalTrue := false
+					ast.Inspect(cf.Body, func(m ast.Node) bool {
+						if rs, ok := m.(*ast.ReturnStmt); ok && len(rs.Results) == 1 && core.ExprStr(rs.Results[0]) == "true" {
+							literalTrue = true // an unconditional "yes" bypasses the comparison
+						}
+						return true
+					})
+					return !literalTrue && strings.Contains(s, ".Question") && strings.Contains(s, "Qtype") && strings.Contains(s, ".Name")
 				}
 			}
 		}
